@@ -15,7 +15,7 @@ RULE = ('FIT: every value shape in {scalar} + {1..4}^2 x every destination shape
         'points (Cell(ref, f) with f an array literal / a range reference / an operator result / a scalar, and '
         'Ranges().push(ref, v).value with v an Array / ndarray / nested list / Ranges / bare scalar), elements of every kind. '
         'LIFT: 12 binary + 3 unary operators and ~60 element-wise functions x all Excel-compatible combinations of argument '
-        'shapes from {scalar, 1x1, 1xn, mx1, mxn}, m,n<=4 (all 100 pairs, all 484 triples for IF) x arguments given as array '
+        'shapes from {scalar, 1x1, 1xn, mx1, mxn}, m,n<=4 (all 100 pairs for every operator; thorough: all pairs for every 2-argument function and all 484 triples for IF, quick: samples of them) x arguments given as array '
         'literals, range inputs or mixed x elements of every kind (numbers, numeric/other text, logicals, blanks, the 7 errors) '
         'x destinations (result shape, larger, repeated, truncating). MANY: CONCATENATE / IFS / SWITCH with 1..40 arguments, a '
         'core call padded with neutral arguments across the 31/32 boundary. Oracles: (a) the same function called once per '
